@@ -259,3 +259,10 @@ Proof.
     intros k c Hk Hc. apply inl_chain_exact; assumption.
   - exfalso. apply Hne. apply (proj2 (fill_public_shape st mbase (instr - mbase))).
 Qed.
+
+Lemma inlinee_lookup_exact_all fr d x :
+  (exists c, nearest (kept fr) d x c) /\
+  (forall c c', nearest (kept fr) d x c -> nearest (kept fr) d x c' -> c = c') /\
+  forall c, nearest (kept fr) d x c ->
+    get_inlinee_at_depth (fn_inls (fin_func true fr)) d x = Ret (giad_check d x c).
+Proof. split; [apply nearest_exists|]. split; [apply nearest_unique|apply inlinee_lookup_exact]. Qed.
